@@ -97,6 +97,10 @@ def _term(ex, tag, t, env):
             dt = SymStr(tuple(t.get("dt_base", "http://ex.org/dt/")) + tuple(_free(ex, tag + "_d", t.get("dt_k", 0), c_iri)) + tuple(t.get("dt_post", "t")))
             parts["dt"] = dt
             return q + "^^<" + dt + ">", dict(cls="Literal", val=dt), parts
+        if sfx == "dt_rel":     # datatype IRI relative to @base
+            rel = SymStr(tuple("t") + tuple(_pn_local(ex, tag + "_d", t.get("dt_k", 1))))
+            parts["dt"] = env["base"] + rel
+            return q + "^^<" + rel + ">", dict(cls="Literal", val=env["base"] + rel), parts
         if sfx == "dt_pn":
             local = SymStr(tuple("d") + tuple(_pn_local(ex, tag + "_d", t.get("dt_k", 0))))
             return q + "^^e:" + local, dict(cls="Literal", val=env["prefixes"]["e"] + local), parts
@@ -443,6 +447,8 @@ def skeletons(tier):
     for lead in ("",):
         groups = [({"t": "rel", "k": 1, "lead": lead}, [(PN1, [{"t": "rel", "k": 2, "lead": lead}])])]
         out.append(("base/rel%s" % lead, dict(groups=groups, layout=_default_layout(groups), base="http://b.c/d/")))
+    groups = [(PN1, [(PN1, [_lit([F], "dt_rel")]), (PN1, [_lit([], "dt_rel", dt_k=2)])])]
+    out.append(("base/relative-datatype", dict(groups=groups, layout=_default_layout(groups), base="http://b.c/types/")))
     groups = [({"t": "abs", "k": 1}, [({"t": "rdftype"}, [{"t": "rel", "k": 1}])])]
     out.append(("base/abs+rdftype", dict(groups=groups, layout=_default_layout(groups), base="http://b.c/", declare_rdf=True)))
     return out
